@@ -64,8 +64,10 @@ def run_case(i, tier, seed):
         imgs = []
         for k in range(a):
             px, ln = rng.randrange(1, 9), rng.randrange(1, 9)
-            data = bytes(rng.randrange(256) for _ in range(px * ln * b))
-            imgs.append({"pixels": px, "lines": ln, "nbytes": b, "data": data})
+            # every other trailer mixes sample widths between its images (each entry declares its own)
+            nb = b if (i % 2 == 0 or k == 0) else rng.choice([w for w in (2, 4) if w != b] + [b])
+            data = bytes(rng.randrange(256) for _ in range(px * ln * nb))
+            imgs.append({"pixels": px, "lines": ln, "nbytes": nb, "data": data})
         blob = synth.trailer_bytes({"head": gen.fill_record(rng, "trl_head", {}), "images": imgs,
                                     "tail": "".join(rng.choice(gen.INNER) for _ in range(720 - 496 - 26 * a))})
         try:
@@ -75,10 +77,10 @@ def run_case(i, tier, seed):
                 problems.append(f"trailer with {a} low-resolution images returned {len(out)}")
             for k, (im, arr) in enumerate(zip(imgs, out)):
                 obs["trailer_images"] += 1
-                want = np.frombuffer(im["data"], dtype=f">i{b}")
+                want = np.frombuffer(im["data"], dtype=f">i{im['nbytes']}")
                 got = np.asarray(arr)
                 if got.size != want.size or not np.array_equal(got.reshape(-1).astype("int64"), want.astype("int64")):
-                    problems.append(f"trailer image {k} of {a} ({im['pixels']}x{im['lines']}, {b}-byte samples) does not equal its own bytes")
+                    problems.append(f"trailer image {k} of {a} ({im['pixels']}x{im['lines']}, {im['nbytes']}-byte samples) does not equal its own bytes")
         except Exception as e:
             problems.append(f"trailer with {a} images of {b}-byte samples: reader raised {harness.exc_sig(e)}")
         sig = f"trl|{a}|{b}"
